@@ -6,7 +6,7 @@ from ..pool import contract, metadata_problem, core_arrays, value_snapshot, valu
 
 ASSUME = [
     'islands of spec/LinSolve.tla: A = G^H G + 2 I (Hermitian positive definite by construction, integer TT cores), planted solution and guesses with full-rank interface matrices (a train with rank-deficient interfaces makes the projected systems singular, which is outside "initial guesses of any rank")',
-    'energies E(x) = (x-xs)^H A (x-xs) are evaluated numerically from the exact dense A and xs (numeric evaluator); comparison E_{k+1} <= E_k (1+1e-9) + 1e-16 E_0; exactness tolerance 1e-8',
+    'energies E(x) = (x-xs)^H A (x-xs) are evaluated numerically from the exact dense A and xs (numeric evaluator); comparison E_{k+1} <= E_k (1+1e-9) + 1e-16 E_0 + 1e-24 (1 + xs^H A xs); exactness tolerance 1e-8',
     'MALS descent is claimed without effective truncation (threshold 0, unbounded rank); with a finite max_rank only dims and the rank cap are claimed',
     'trusted base: TLC (exact core algebra AddCores/MatMulCores, model-level check b = A xs and A Hermitian on small instances), numpy for the energy',
 ]
@@ -39,6 +39,7 @@ def replay(case):
         e = dense_vec(t) - xsd
         return float(np.real(e.conj() @ Ad @ e))
 
+    Escale = float(np.real(xsd.conj() @ Ad @ xsd)) + 1.0      # rounding floor: a guess that happens to be exact has E = 0
     snaps = [value_snapshot([t]) for t in (A, b, x0)]
     kind = ('cplx' if cfg['cplx'] else 'real')
     for name in ('als', 'mals'):
@@ -87,7 +88,7 @@ def replay(case):
                         E.append(energy(r))
                     else:
                         for k in range(len(E) - 1):
-                            if E[k + 1] > E[k] * (1 + 1e-9) + 1e-16 * E[0]:
+                            if E[k + 1] > E[k] * (1 + 1e-9) + 1e-16 * E[0] + 1e-24 * Escale:
                                 out.append(('%s:descent:%s' % (tag, kind), 'energy error increases from repeats=%d to %d: %r (dims %r)' % (
                                     k, k + 1, E, cfg['dims'])))
                                 break
